@@ -82,6 +82,9 @@ template <typename Number> class congruence {
 
   Number lcm(Number x, Number y) const;
 
+  // Return gcd(x,y) and set u such that x*u = gcd(x,y) (mod y)
+  Number bezout(Number x, Number y, Number &u) const;
+
   bool is_zero() const;
 
   bool all_ones() const;
